@@ -57,10 +57,12 @@ func init() {
 		return setOrErr(operated.GetNspatialIdsAroundVoxcels(split(a[0]), atoi(a[1]), atoi(a[2])))
 	})
 	op("chgExt", func(a []string) string {
-		return setOrErr(integrate.ChangeExtendedSpatialIdsZoom(split(a[0]), atoi(a[1]), atoi(a[2])))
+		l, err := integrate.ChangeExtendedSpatialIdsZoom(split(a[0]), atoi(a[1]), atoi(a[2]))
+		return setOrErrZ(l, err, 0, 35, atoi(a[1]), atoi(a[2]))
 	})
 	op("chgSp", func(a []string) string {
-		return setOrErr(integrate.ChangeSpatialIdsZoom(split(a[0]), atoi(a[1])))
+		l, err := integrate.ChangeSpatialIdsZoom(split(a[0]), atoi(a[1]))
+		return setOrErrZ(l, err, 0, 35, atoi(a[1]))
 	})
 	op("hz", func(a []string) string {
 		return join(integrate.HorizontalZoom(atoi(a[0]), atoi(a[1]), atoi(a[2]), atoi(a[3])))
